@@ -167,7 +167,10 @@ CHECKS = {
         "text": ("TengoSem records the innermost executing statement and the stack of call-site statements of every run-time error (it has no "
                  "offsets, source maps or frames). For failing programs (every failing operation kind x call depth 0-4 x statement form, next to "
                  "dead code) the positions in the real error text must lie inside the extents of exactly those statements, innermost first; "
-                 "the no-DCE twin must report the same text."),
+                 "the no-DCE twin must report the same text. "
+                 "SourcePos.tla models the file set all reported locations go through (position ranges per file, line tables, the LastFile cache "
+                 "in front of the binary search) with the invariants lookup = declarative meaning under any cache content, ranges disjoint, "
+                 "positions ordered like (line, column); witness histories and complete answer tables are replayed on a real SourceFileSet."),
         "design_ref": "DESIGN.md 8/C14",
         "note": "Trusted: TLC; statement extents from the harness printer; error classes via errors.Is / fixed prefixes. Module files: not yet covered.",
         "technique": "TLA+ reference semantics predicts failing statement and call stack; real error positions validated by containment",
